@@ -109,7 +109,7 @@ Plan generate(uint64_t seed, uint64_t run, bool thorough) {
     p.set("nt", r.chance(0.7) ? 1 : 2, 1);
     { static const long nsc[] = { 1, 1, 2, 2, 2, 2, 3 }; p.set("nullspace", r.chance(0.35) ? nsc[r.below(7)] : 0, 0); }      // near-null-space vectors handed to the distributed coarsening
     { double u = r.unit(); p.set("kind", u < 0.7 ? K_MPI_AMG : u < 0.85 ? K_SDD : K_BLOCK, 0); }
-    p.set("local_relax_only", r.chance(0.4) ? 1 : 0, 0); p.set("local_coarsening", r.range(0, 2), 0);      // (energy-minimising coarsening of tiny subdomain levels degenerates: recorded under C02) p.set("ndv", r.range(1, 2), 1);
+    p.set("local_relax_only", r.chance(0.4) ? 1 : 0, 0); p.set("local_coarsening", r.range(0, 2), 0); p.set("ndv", r.range(1, 2), 1);      // (no energy-minimising coarsening inside subdomains: its degenerate tiny levels are recorded under C02)
     draw_schedule(r, p.sched, (int)p.get("R"));
     return p;
 }
@@ -216,8 +216,10 @@ Result execute(const Plan &p) {
             long double rr = 0, ff = 0, ainf = 0, xinf = 0, finf = 0;
             for (long i = 0; i < n; ++i) { long double t = f[i], rs = 0; for (ptrdiff_t j = A.ptr[i]; j < A.ptr[i+1]; ++j) { t -= (long double)A.val[j] * x[A.col[j]]; rs += std::fabs((long double)A.val[j]); } rr += t * t; ff += (long double)f[i] * f[i]; ainf = std::max(ainf, rs); xinf = std::max(xinf, (long double)std::fabs(x[i])); finf = std::max(finf, (long double)std::fabs(f[i])); }
             double rstar = (double)std::sqrt((double)(rr / (ff > 0 ? ff : 1))), tol = 1e-8;
-            double delta = (double)(200.0L * (iters[0] + 1) * n * 1.2e-16L * (ainf * xinf / (finf > 0 ? finf : 1) + 1));
+            long maxrow = 1; for (long i = 0; i < n; ++i) maxrow = std::max<long>(maxrow, A.ptr[i+1] - A.ptr[i]);
+            double delta = (double)(200.0L * (iters[0] + 1) * 3.0L * (maxrow + 1) * 1.2e-16L * (ainf * xinf / (finf > 0 ? finf : 1) + 1));      // as in C01: row length, not n
             bool finite = std::isfinite(rstar) && std::isfinite((double)xinf);
+            if (getenv("C12_DEBUG") && kind != K_MPI_AMG) fprintf(stderr, "kind %ld R %d ndv %ld relax_only %ld reported %.3g true %.3g delta %.3g iters %.0f\n", kind, R, p.get("ndv"), p.get("local_relax_only"), resid[0], rstar, delta, iters[0]);
             if (!finite) { if (std::isfinite(resid[0]) && resid[0] < 1) res.fail(sig("truthful-residual", "nonfinite-solution-reported-finite", fmt("gathered solution is not finite, reported residual %.3g", resid[0]))); res.counts["nonfinite_outcomes"]++; }
             else if (delta < 0.1 * tol) {
                 if (resid[0] < tol && !(rstar < 1.05 * tol + delta)) res.fail(sig("truthful-residual", "reported-converged-but-is-not", fmt("reported %.6g after %.0f iterations, true global residual %.6g", resid[0], iters[0], rstar)));
